@@ -139,7 +139,7 @@ func runC01(c *Ctx) {
 	c.Note("C01-D1 covered %d Encode sites and %d NewPacket sites", nEnc, nNew)
 	// no other Encode site exists outside this table (a new send path must be added here)
 	for _, fn := range p.SrcFuncs() {
-		if siteOf(fn) != nil && rawTop(fn) == fn {
+		if siteOf(fn) != nil {
 			continue // a transparent helper's calls are listed with its owner
 		}
 		for _, cs := range CallsTo(Calls(fn), `\(parser\.Parser\)\.Encode`) {
